@@ -382,7 +382,9 @@ impl Ord for Iri {
 
 impl Hash for Iri {
 	fn hash<H: hash::Hasher>(&self, state: &mut H) {
-		self.parts().hash(state)
+		// Must be the same as the hash of the reference, since
+		// `Iri: Borrow<IriRef>`.
+		self.as_iri_ref().hash(state)
 	}
 }
 
